@@ -5,7 +5,7 @@ import itertools
 
 import numpy as np
 
-from checks.common import hash_tag, relayout
+from checks.common import hash_tag, relayout, xf_build, xf_names
 from qmc import gen as G
 from qmc import oracle as O
 from qmc.loader import load
@@ -73,6 +73,8 @@ def cases(tier, seed):
         for kpos in range(min(m, n)):
             out.append({"key": f"graded-triu/{m}x{n}/k={kpos}", "kind": "graded", "sub": "triu", "m": m, "n": n, "cls": "generic", "row": 0, "kpos": kpos})
             out.append({"key": f"graded-col/{m}x{n}/k={kpos}", "kind": "graded", "sub": "col", "m": m, "n": n, "cls": "ints", "row": 0, "kpos": kpos})
+        for nm in xf_names(m, n):  # unusual-but-legal variants (component supports, ties, gradings, circulant/Toeplitz, special matrices, layouts)
+            out.append({"key": f"xf/{m}x{n}/{nm}", "kind": "xf", "m": m, "n": n, "cls": "generic", "row": 0, "xf": nm})
         for e in (-50, 40):
             out.append({"key": f"scaled/{m}x{n}/2^{e}", "kind": "scaled", "m": m, "n": n, "cls": "generic", "row": 0, "e": e})
             out.append({"key": f"scaled-zero-col/{m}x{n}/2^{e}", "kind": "scaled", "m": m, "n": n, "cls": "ints", "row": 0, "e": e, "zc": 0})
@@ -95,6 +97,9 @@ def run_case(case, seed):
             A = O.qmatmul(fill.quat(m, r, bits=2, lo=-6, hi=6), fill.quat(r, n, bits=2, lo=-6, hi=6))
     elif case["kind"] == "layout":
         A = base_matrix(case["cls"], m, n, fill)
+    elif case["kind"] == "xf":
+        A, lay_ = xf_build(case["xf"], m, n, fill)
+        case = dict(case, lay=lay_)
     elif case["kind"] == "graded":
         A = base_matrix(case["cls"], m, n, fill)
         if case["sub"] == "triu":
